@@ -93,7 +93,7 @@ pub fn check(tape: &[u32]) -> CheckResult {
 pub fn run(run: &mut Run) {
     run.rule = "cases: one well-formed sprite model and two independently drawn encoding plans (per-cel raw/zlib level 0-9, per-frame chunk-count form, ignorable chunks cel-extra/mask/path/colour-profile none|sRGB, chunk padding, trailing garbage, unused header/layer/tag/palette field values, pixel ratio with a zero component, redundant legacy palette chunk, conformant chunk and cel order shuffles). Oracle: both load and the whole-API observations (structure, user data, all images) are equal. non-trivial: byte strings differ and the plans differ in >= 2 choice classes (labels count each class); distinct by hash of both files".into();
     run.assumptions = vec!["only the equivalences the statement lists are varied; frame byte count, z-index and header flags are never varied".into()];
-    let (lanes, cases) = if run.thorough() { (16, 25000) } else { (16, 2000) };
+    let (lanes, cases) = if run.thorough() { (16, 25000) } else { (16, 3000) };
     run_tapes(run, lanes, cases, 1500, &check);
 }
 
